@@ -5,6 +5,7 @@ pub mod drivers;
 pub mod env;
 pub mod gen;
 pub mod honest;
+pub mod mutate;
 pub mod project;
 pub mod sim;
 pub mod world;
